@@ -6,6 +6,7 @@ import (
 	"fmt"
 	"os"
 	"path/filepath"
+	"runtime"
 	"sort"
 	"strconv"
 	"strings"
@@ -111,7 +112,15 @@ func cmdCheck(args []string) int {
 		return 2
 	}
 	w.loadSecs = time.Since(t0).Seconds()
-	cfg := RunConfig{Tier: *tier, Timeout: 10 * time.Second, WorkDir: filepath.Join(*verif, ".work", *prop), Parallel: 6}
+	// each obligation races four solver processes: keep the machine below one process per core
+	par := runtime.NumCPU() / 4
+	if v := os.Getenv("VC_PARALLEL"); v != "" {
+		fmt.Sscan(v, &par)
+	}
+	if par < 1 {
+		par = 1
+	}
+	cfg := RunConfig{Tier: *tier, Timeout: 10 * time.Second, WorkDir: filepath.Join(*verif, ".work", *prop), Parallel: par}
 	if *tier == "thorough" {
 		cfg.Timeout = 60 * time.Second
 	}
